@@ -1,6 +1,7 @@
 """C08 — entry guards are never bypassed and refused transitions have no effect.
 
-Model     lean/IofloModel/Model/Flo.lean (checkEnter / frameCheckEnter / auxCheck / checkStart, transit, framerStep)
+Model     lean/IofloModel/Model/Flo.lean (checkEnter / checkEnterC / frameCheckEnter / auxCheck / auxClaim / checkStart,
+          transit, framerStep) — the repaired Framer.checkEnter of fixes/D3d-checkenter-claims-aux-once.patch
 Theorems  lean/IofloModel/Props/C08.lean
 Tie       generated programs (floeng.gen_guards: `let` guards at several depths on shares only a clock framer
           writes, guarded transition targets, auxiliaries with guarded first frames, an original auxiliary named
@@ -8,8 +9,9 @@ Tie       generated programs (floeng.gen_guards: `let` guards at several depths 
           recorder events, per-tick status/active/actives/done/main/elapsed/recurred, store values.
 Oracle    on the implementation's own trace, independent of the model: every frame that is entered in a tick has
           all its `let` guards true on the store values of that tick (for guards over clock-only shares), no
-          original auxiliary is held by two entered frames, and a run without an entry leaves elapsed/recurred
-          running on (no reset, no exit actions).
+          original auxiliary is held by two entered frames, a run without an entry leaves elapsed/recurred
+          running on (no reset, no exit actions), and the update/change marks of a framer's transitions change
+          only in a run in which that framer enters a frame.
 """
 import core, floeng, floref
 from props.c07 import FloCheck
@@ -39,7 +41,8 @@ class CHECK(FloCheck):
     N_THOROUGH = 12000
     N_SEARCH = 600
     RULE = ("generated FloScript programs: floeng.gen_guards (let guards at several depths on clock-driven shares that "
-            "flip at chosen ticks, guarded targets of go, plain and conditional auxiliaries with guarded first frames, an "
+            "flip at chosen ticks, guarded targets of go, `is updated` / `is changed` conditions (with/without `in frame`) on 30 % "
+            "of the transitions and conditional-aux clauses, plain and conditional auxiliaries with guarded first frames, an "
             "original auxiliary named by two frames, inactive framers started later) 60 %, gen_susp 25 %, gen_program "
             "15 %; 4-14 ticks. Non-trivial = a transition is taken, an auxiliary entered or a start/transition refused; "
             "distinct by program")
@@ -48,7 +51,9 @@ class CHECK(FloCheck):
                "oracle: guards are evaluated by the harness on the end-of-tick store values, which is exact only for "
                "guards over shares written by the clock framer alone (it runs first in every tick); other guards are "
                "covered by the correspondence only"]
-    PARTIAL = ["needs are pure in the model; a need actor with side effects (marker needs' transit acts) is outside the subset",
+    PARTIAL = ["needs are pure in the model; the transit marker acts of `is updated` / `is changed` needs are the `tracts` of "
+               "the transition (Preact.transit … tracts), run only when it is taken (C08_transit_refused_is_noop); the stamps and "
+               "marks themselves live in the concrete store of Model/FloProg.lean and are compared after every tick",
                "`checked` is the state of the attempt: transit and exit acts of the same transition run after the check"]
     TECHNIQUE = "Lean 4 theorems about the check/act structure of the framer model + differential correspondence"
     LEVEL_TEXT = ("Proved for every program, semantics and auxiliary level: C08_check_enter / C08_frame_check (a passed "
@@ -57,7 +62,11 @@ class CHECK(FloCheck):
                   "C08_transit_enter_implies_checked, C08_transit_enters_checked_list (enter is called with exactly the "
                   "checked list, in the state of the check), C08_transit_refused_is_noop / C08_transit_false_unchanged (state "
                   "identical), C08_suspend_start_checked, C08_start_refused_is_noop, C08_start_refused_untouched, "
-                  "C08_start_checks_first, C08_empty_enters_refused, C08_checkStart_unfold.")
+                  "C08_start_checks_first, C08_empty_enters_refused, C08_checkStart_unfold; C08_claims_distinct (one passed check "
+                  "never approves the same original auxiliary for two aux clauses of the frames it enters; by induction over "
+                  "the nesting depth the `claimed` list stays duplicate-free through aux.checkStart(claimed)), "
+                  "C08_shared_aux_refused (two frames of `enters` naming one original auxiliary: refused); marks: "
+                  "C08_mark_consumes_update, C08_refused_keeps_update_pending, C08_enter_mark_sees_same_time_write.")
     LEVEL_NOTE = ("Trusted: Lean kernel; axioms propext, Classical.choice, Quot.sound; the transcription in Model/Flo.lean "
                   "validated by the correspondence; the oracle's guard evaluation is restricted to clock-only shares.")
 
@@ -74,7 +83,7 @@ class CHECK(FloCheck):
     def region(self, finding, case):
         reply = core.Driver("flo").run([floeng.encode(case["prog"])])[0]
         flags = [l for l in reply.split("|") if l.startswith("G ")]
-        want = {"D3": "overlap=1", "D3b": "shared=1", "D3c": "reenter=1", "D3d": "shared=1"}.get(finding.get("id"))
+        want = {"D3": "overlap=1", "D3c": "reenter=1", "D3e": "both=1"}.get(finding.get("id"))
         return bool(flags) and want is not None and want in flags[0]
 
     def nontrivial(self, case, out):
@@ -117,6 +126,19 @@ class CHECK(FloCheck):
         # runs first, owns no auxiliary, and is the only writer of the guard shares
         clock = clock_only_shares(prog) if case.get("gen") == "guards" else set()
         tk = set(floeng.taskables(prog))
+        # marks whose conditions sit on transitions of scheduled framers only (not on conditional-aux clauses):
+        # (share, key) -> framer that owns them
+        mark_owner, aux_marks = {}, set()
+        for i, fr in enumerate(prog["framers"]):
+            for j, f in enumerate(fr["frames"]):
+                for it in f["items"]:
+                    for nd in (it.get("needs", []) if it["t"] in ("go", "aux") else []):
+                        if nd["k"] in ("up", "chg"):
+                            pr = (nd["sh"], floeng.mark_key(prog, i, j, nd))
+                            mark_owner[pr] = i
+                            if it["t"] == "aux" or i not in tk:
+                                aux_marks.add(pr)
+        prev_marks = None
         period = prog["period"]
         entered = {}
         entry_tick = {}                # framer -> tick of its last entry (start, transition, forced re-entry)
@@ -193,6 +215,30 @@ class CHECK(FloCheck):
                                 return "%s: framer m%d stayed %s but ran %s" % (where, i, snap[i][0], mine)
                             if snap[i][5:] != prev[i][5:]:
                                 return "%s: framer m%d stayed %s but elapsed/recurred changed" % (where, i, snap[i][0])
+                # (4) a mark is written by the enter marker of its frame and by a TAKEN transition only: it does not
+                #     change in a run of its framer that entered nothing (refused or not attempted transitions)
+                marks = None
+                for q in (k + 1, k + 2):
+                    if q < len(lines) and lines[q].startswith("K "):
+                        marks = {}
+                        for t in lines[q][2:].split(" "):
+                            if t:
+                                name, _shst, mst, mus, mda = t.split(":")
+                                a, b = name.split(".")
+                                marks[(int(a), int(b))] = (mst, mus, mda)
+                if marks is not None and prev_marks is not None and prev is not None and toks[0] == "S":
+                    for pr, val in marks.items():
+                        i = mark_owner.get(pr)
+                        if i is None or pr in aux_marks or val == prev_marks.get(pr, val):
+                            continue
+                        entered_now = (snap[i][6] == 0 or snap[i][1] != prev[i][1] or
+                                       any(c == "enter" and owner[g_] == i for (g_, c) in seq))
+                        if not entered_now:
+                            return ("%s: mark f%d of share .v%d changed from %s to %s although framer m%d entered no "
+                                    "frame in this run (a transition that is not taken has no effect)" % (
+                                        where, pr[1], pr[0], prev_marks[pr], val, i))
+                if marks is not None:
+                    prev_marks = marks
                 prev = snap
                 events = []
             k += 1
